@@ -117,6 +117,10 @@ def run_native(scratch, spec, testname, testcode, profile="dev"):
     shutil.rmtree(base, ignore_errors=True)
     if p.returncode == 124:
         return True, "native replay did not terminate within 300 s (non-termination)\n" + out[-800:]
+    if "Not enough det vals found" in out:
+        # the run got past the point where the recorded counter-example failed and asked for
+        # more symbolic inputs than were recorded: the recorded failure no longer occurs
+        return False, "the recorded failure no longer occurs (execution continues past the recorded inputs)"
     if re.search(r"test result: FAILED|panicked at", out):
         return True, out[-1500:]
     if re.search(r"test result: ok\. 1 passed", out):
